@@ -63,6 +63,8 @@ func (g *rpGen) block(depth int, pfx string, n int) []Sx {
 			if m := g.mws(2); len(m) > 0 {
 				ss = append(ss, LS(append([]Sx{A("use")}, m...)))
 			}
+		case k == 9 && depth == 0 && g.depthMax >= 2 && g.r.Chance(1, 3):
+			ss = append(ss, g.spareCapacity(pfx))
 		case k < 4 && depth < g.depthMax:
 			gi := g.r.Intn(4) + 1 + depth*4
 			name := fmt.Sprintf(rpPrefixForms[g.r.Intn(len(rpPrefixForms))], gi)
@@ -95,6 +97,47 @@ func (g *rpGen) block(depth int, pfx string, n int) []Sx {
 		}
 	}
 	return ss
+}
+
+// aliasing scenario: a group whose middleware slice gets spare capacity (argument + Use + Use), a sub-group that appends into
+// it and registers routes with and without middleware of their own, then a sibling sub-group / a further Use that appends again
+func (g *rpGen) spareCapacity(pfx string) Sx {
+	gi := 70 + g.r.Intn(9)
+	p := fmt.Sprintf("%s/g%d", pfx, gi)
+	var body []Sx
+	for k := g.r.Range(1, 3); k > 0; k-- {
+		body = append(body, L(A("use"), g.newMW()))
+	}
+	sub := func(n int) Sx {
+		sp := fmt.Sprintf("%s/n%d", p, n)
+		var b []Sx
+		for k := g.r.Range(1, 2); k > 0; k-- {
+			b = append(b, g.routeKind(sp, g.r.Intn(3) == 0))
+		}
+		return L(A("group"), S(fmt.Sprintf("/n%d", n)), LS([]Sx{g.newMW()}), LS(b))
+	}
+	body = append(body, sub(1))
+	if g.r.Bool() {
+		body = append(body, L(A("use"), g.newMW()))
+	}
+	body = append(body, sub(2), g.routeKind(p, false))
+	return L(A("group"), S(fmt.Sprintf("/g%d", gi)), LS([]Sx{g.newMW()}), LS(body))
+}
+
+// routeKind: a route under the normalised prefix pfx, with or without middleware of its own
+func (g *rpGen) routeKind(pfx string, own bool) Sx {
+	g.nextRt++
+	k := g.nextRt
+	mainID := 100 + k
+	g.hs = append(g.hs, L(I(mainID), L(ev(mainID*10))))
+	path := fmt.Sprintf("/r%d", k)
+	var mws []Sx
+	if own {
+		mws = []Sx{g.newMW()}
+	}
+	g.reqs = append(g.reqs, L(S("GET"), S(pfx+path), L()))
+	g.routeIx++
+	return L(A("route"), SL([]string{"GET"}), S(path), I(mainID), LS(mws), L(), S(""))
 }
 
 func (g *rpGen) route(pfx string) Sx {
